@@ -63,6 +63,14 @@ class FileHeaderItem(EFLRItem):
         if key == 'header_id':
             value = validate_string(value)  # an ID given later is held to the same rules as one given at creation
 
+        if key == 'sequence_number':
+            # (also for a number given later; True is no sequence number although bool is a subclass of int)
+            if isinstance(value, bool) or not isinstance(value, int):
+                raise TypeError(f"'sequence_number' should be an integer; got {type(value)}: {value}")
+            if not 0 < value <= self.max_sequence_number:
+                raise ValueError(f"Sequence number must be a positive integer not larger than {self.max_sequence_number}; "
+                                 f"got {value}")
+
         return super().__setattr__(key, value)
 
     def __repr__(self) -> str:
